@@ -31,7 +31,8 @@ func accessorForms(c *Checker, rule string) {
 		b := buf{paramName(fn, 0)}
 		ret := mergedRet(retPaths(s))
 		want := a.want(b)
-		ok := ret != nil && eqCanon(ret, want) && len(panicPaths(s)) == 0
+		// the property quantifies over channels >= 1 (C20 covers zero channels)
+		ok := ret != nil && eqUnder(ret, want, shapeAssume(b)) && len(panicPaths(s)) == 0
 		for _, o := range s.Outcomes {
 			if len(mods(o)) > 0 {
 				ok = false
@@ -67,7 +68,7 @@ func checkC02(c *Checker) {
 				if isPtr && p.Obj != nil && p.Obj.Kind == OFresh && len(p.Path) == 0 {
 					hdr, okHdr = o.St.mem[p.Obj].(StructV)
 				}
-				if !okHdr || len(hdr.F) != 3 {
+				if !okHdr || len(hdr.F) < 3 {
 					c.refuted("C02-R2", "Buffer.Slice/header", c.pos(o.Pos), "result is not a fresh Buffer header: "+valString(o.Ret), "")
 					continue
 				}
@@ -248,12 +249,12 @@ func checkC14(c *Checker) {
 	if fn, s := get("C14-F", "Length"); fn != nil {
 		pb, _ := parent(fn)
 		ret := mergedRet(retPaths(s))
-		c.expect(ret != nil && eqCanon(ret, pb.length()), "C14-F", "C.Length", c.pos(fn.Pos()), "= parent's Length", "C.Length() returns "+pretty(canonOrNil(ret)))
+		c.expect(ret != nil && eqUnder(ret, pb.length(), shapeAssume(pb)), "C14-F", "C.Length", c.pos(fn.Pos()), "= parent's Length", "C.Length() returns "+pretty(canonOrNil(ret)))
 	}
 	if fn, s := get("C14-F", "Capacity"); fn != nil {
 		pb, _ := parent(fn)
 		ret := mergedRet(retPaths(s))
-		c.expect(ret != nil && eqCanon(ret, specFloorDiv0(pb.capT(), pb.ch())), "C14-F", "C.Capacity", c.pos(fn.Pos()), "= parent's Capacity", "C.Capacity() returns "+pretty(canonOrNil(ret)))
+		c.expect(ret != nil && eqUnder(ret, specFloorDiv0(pb.capT(), pb.ch()), shapeAssume(pb)), "C14-F", "C.Capacity", c.pos(fn.Pos()), "= parent's Capacity", "C.Capacity() returns "+pretty(canonOrNil(ret)))
 	}
 	if fn := c.anchor("C14-F", "(*Buffer[T]).Channel"); fn != nil {
 		s := c.Summary(fn)
@@ -307,7 +308,7 @@ func checkC13(c *Checker) {
 				}
 				hdr, _ := o.St.mem[p.Obj].(StructV)
 				fi := bufferFields(p.Obj.Typ)
-				if fi == nil || len(hdr.F) != 3 {
+				if fi == nil || len(hdr.F) < 3 {
 					okAll, detail = false, "cannot resolve Buffer fields"
 					break
 				}
@@ -410,7 +411,7 @@ func (c *Checker) bitDepthViaAlloc(tname string) {
 		}
 		hdr, _ := o.St.mem[p.Obj].(StructV)
 		fi := bufferFields(p.Obj.Typ)
-		if fi == nil || len(hdr.F) != 3 {
+		if fi == nil || len(hdr.F) < 3 {
 			continue
 		}
 		c.bitDepthVerdict(inst, tname, valTerm(hdr.F[fi.bitDepth]), fn)
@@ -437,7 +438,7 @@ func (c *Checker) depthOf(tname string) (int64, bool) {
 			for _, o := range retPaths(s) {
 				if p, ok := o.Ret.(PtrV); ok && p.Obj != nil {
 					hdr, _ := o.St.mem[p.Obj].(StructV)
-					if fi := bufferFields(p.Obj.Typ); fi != nil && len(hdr.F) == 3 {
+					if fi := bufferFields(p.Obj.Typ); fi != nil && len(hdr.F) >= 3 {
 						if v, ok := normIntConst(valTerm(hdr.F[fi.bitDepth])); ok {
 							return v, true
 						}
